@@ -35,6 +35,15 @@ def spec_value(cell):
     return {'v': ['?', 0, 0], 'big': True}
 
 
+def exact_text(cell):
+    tn = cell.type.name
+    if tn in ('INTEGER', 'LONG'):
+        return str(int(cell.value))
+    if tn in ('SINGLE', 'DOUBLE'):
+        return repr(float(cell.value)) if float(cell.value) != 0 else '0.0'
+    return str(cell.value)
+
+
 def py_value(x, kind):
     class C:
         pass
@@ -49,10 +58,11 @@ def py_value(x, kind):
 
 
 class EventObserver:
-    def __init__(self, module):
+    def __init__(self, module, raw=False):
         self.module = module
         self.events = []
         self._e0 = None
+        self.raw = raw          # also keep the exact text of every printed value
 
     def line_of(self, cpu, pc):
         di = self.module.debug_info
@@ -86,6 +96,8 @@ class EventObserver:
                 if code == 0 and i + 1 < len(args):
                     sv = spec_value(args[i + 1])
                     items.append({'k': 'val', 's': '', 'v': sv['v'], 'big': sv['big']})
+                    if self.raw:
+                        items[-1]['raw'] = exact_text(args[i + 1])
                     i += 2
                 elif code == 1:
                     items.append({'k': 'sep', 's': ';', 'v': ['I', 0, 0], 'big': False})
